@@ -15,6 +15,15 @@ VERIF = os.path.dirname(os.path.dirname(os.path.abspath(__file__)))
 REPO = os.environ.get("VERIF_REPO", "/repo")
 BUILD = os.path.join(VERIF, ".build")
 COQ = os.path.join(VERIF, "coq")
+if os.path.realpath(REPO) != "/repo":
+    # checking another tree (a scratch worktree with a candidate change): work on a private copy
+    # of the Coq project and build directory so that concurrent checks of /repo are not disturbed
+    BUILD = os.path.join(VERIF, ".build", "alt", hashlib.sha1(os.path.realpath(REPO).encode()).hexdigest()[:10])
+    os.makedirs(BUILD, exist_ok=True)
+    subprocess.run(["rsync", "-a", "--delete", "--exclude", "gen/", "--exclude", "cases/", os.path.join(VERIF, "coq") + "/", os.path.join(BUILD, "coq") + "/"], check=True)
+    COQ = os.path.join(BUILD, "coq")
+# evidence/ and replays/ of an alternative tree go to its private build directory
+OUTDIR = VERIF if os.path.realpath(REPO) == "/repo" else BUILD
 OVERLAY = os.path.join(VERIF, "harness", "overlay")
 NPROC = min(16, os.cpu_count() or 4)
 
@@ -57,7 +66,7 @@ def run(cmd, cwd=None, env=None, timeout=600, input=None):
 # ----------------------------------------------------------------------------- translator
 def build_l4gen():
     src = os.path.join(VERIF, "tools", "l4gen")
-    binp = os.path.join(BUILD, "l4gen")
+    binp = os.path.join(VERIF, ".build", "l4gen")
     newest = max(os.path.getmtime(os.path.join(src, f)) for f in os.listdir(src))
     if os.path.exists(binp) and os.path.getmtime(binp) >= newest:
         return binp
